@@ -7,6 +7,7 @@ import (
 	"encoding/hex"
 	"fmt"
 	"math/big"
+	"strings"
 	"sync"
 	"testing"
 
@@ -278,6 +279,20 @@ func c12RowBuilderRun(d *refmodel.Decl, sblocks []*sim.Block, refSet map[string]
 		return 0, fmt.Sprintf("configuration in the filter domain refused: %v", err)
 	}
 	ig := conf.Integrations[0]
+	if c12AggSpelling != "" && d.FilterAgg != "" {
+		// the same aggregation spelled with capitals: a stored integration carries it as written
+		// (dig.New is documented to be case-insensitive); in a file it is refused or honoured
+		raw2, _ := json.Marshal(map[string]any{"pg_url": "x", "eth_sources": []any{map[string]any{"name": "src1", "chain_id": 5, "url": "http://x"}}, "integrations": []any{withAgg(d.JSON(), c12AggSpelling), c12RefDecl().JSON()}})
+		var conf2 config.Root
+		if err := json.Unmarshal(raw2, &conf2); err != nil {
+			return 0, "config: " + err.Error()
+		}
+		if fromDB {
+			ig.FilterAGG = c12AggSpelling
+		} else if err := config.ValidateFix(&conf2); err == nil {
+			ig = conf2.Integrations[0]
+		}
+	}
 	if fromDB && d.FilterAgg == "" {
 		// an integration stored through the dashboard is loaded without ValidateFix:
 		// an omitted filter_agg reaches the row builder empty (documented default: or)
@@ -321,6 +336,18 @@ func c12RowBuilderRun(d *refmodel.Decl, sblocks []*sim.Block, refSet map[string]
 		return len(want), "emitted rows != rows the declared filters accept: " + df
 	}
 	return len(want), ""
+}
+
+// c12AggSpelling: when set, filter_agg is written with this spelling (same word, other case).
+var c12AggSpelling string
+
+func withAgg(j map[string]any, agg string) map[string]any {
+	out := map[string]any{}
+	for k, v := range j {
+		out[k] = v
+	}
+	out["filter_agg"] = agg
+	return out
 }
 
 // TestC12_KnownFindings: regressions of repaired defects.
@@ -372,7 +399,12 @@ func TestC12_RowBuilder(t *testing.T) {
 			sblocks = append(sblocks, b)
 		}
 		stored := rapid.Bool().Draw(rt, "stored")
+		c12AggSpelling = ""
+		if d.FilterAgg != "" && rapid.IntRange(0, 2).Draw(rt, "aggcase") == 0 {
+			c12AggSpelling = rapid.SampledFrom([]string{strings.ToUpper(d.FilterAgg), strings.Title(d.FilterAgg)}).Draw(rt, "aggspelling")
+		}
 		want, v := c12RowBuilderRun(d, sblocks, refSet, stored)
+		c12AggSpelling = ""
 		if v != "" {
 			rt.Fatalf("VERIF-VIOLATION property=C12 %s\n %s\n referenced-table=%v", v, c12Describe(d), refSet)
 		}
